@@ -4,6 +4,7 @@ import (
 	"context"
 	"encoding/json"
 	"fmt"
+	"math"
 	"strings"
 	"testing"
 	"testing/synctest"
@@ -215,6 +216,11 @@ func (e *clockEngine) Gen(r *Rand, tier string) any {
 			cap = ceiling
 		}
 		cands := []int64{0, -1, 1, cap - 1, cap, cap + 1, 1 + r.I63n(span), 1 + r.I63n(cap)}
+		if r.Chance(1, 6) {
+			// durations at the edge of the representable range: always above
+			// every cap, whatever is added to or subtracted from them
+			cands = []int64{math.MaxInt64, math.MaxInt64 - 1, math.MinInt64, math.MinInt64 + 1, math.MaxInt64 - cap}
+		}
 		if c.DeadlineNs > 0 {
 			rem := c.DeadlineNs - st.now
 			cands = append(cands, rem-1, rem, rem+1, rem/2, rem-1, rem+1)
@@ -270,7 +276,7 @@ func clockProgram(c *ClockCase) string {
 		}
 		call += ")"
 		fmt.Fprintf(&b, "(set 't0 (time:utc-now))\n(sim:probe 'before %d)\n(sim:probe 'r %d %s %s))\n(set 't1 (time:utc-now))\n", i, i, h, call)
-		fmt.Fprintf(&b, "(sim:probe 'clk %d (time:duration-ns (time:time-from t0 t1)) (time:time< t0 t1) (time:time> t0 t1) (time:time= t0 t1) (time:time= (time:time-add t0 (time:time-from t0 t1)) t1) (time:time= (time:parse-rfc3339-nano (time:format-rfc3339-nano t1)) t1))\n", i)
+		fmt.Fprintf(&b, "(sim:probe 'clk %d (time:duration-ns (time:time-from t0 t1)) (time:time< t0 t1) (time:time> t0 t1) (time:time= t0 t1) (time:time= (time:time-add t0 (time:time-from t0 t1)) t1) (time:time= (time:parse-rfc3339-nano (time:format-rfc3339-nano t1)) t1) (= (time:duration-ns (time:time-elapsed t0)) (time:duration-ns (time:time-from t0 t1))) (time:time= (time:time-add t1 (time:time-from t1 t0)) t0))\n", i)
 	}
 	return b.String()
 }
@@ -497,9 +503,9 @@ func (e *clockEngine) runInBubble(c *ClockCase, st *Stats) *Violation {
 		}
 		// clock-coupled arithmetic
 		if clk != nil {
-			want := fmt.Sprintf("%d %d %v false %v true true", i, elapsed, elapsed > 0, elapsed == 0)
+			want := fmt.Sprintf("%d %d %v false %v true true true true", i, elapsed, elapsed > 0, elapsed == 0)
 			if got := strings.ReplaceAll(clk.ev.Args, "'", ""); got != want {
-				return fail("clock-arithmetic", "instants read around the sleep: (ns lt gt eq add-identity format-parse-identity) = [%s], want [%s]", got, want)
+				return fail("clock-arithmetic", "instants read around the sleep: (ns lt gt eq add-identity format-parse-identity elapsed-agrees add-back-identity) = [%s], want [%s]", got, want)
 			}
 			st.Inc("clock_readings_checked")
 		}
